@@ -1,6 +1,7 @@
 package gosym
 
 import (
+	"time"
 	"fmt"
 	"os"
 	"strconv"
@@ -100,6 +101,7 @@ type Interp struct {
 	OpenKnown  map[string]bool // known-finding ids that are listed as open
 	MapOrder   string          // "asc", "desc", "all"
 	MaxPaths   int
+	Deadline   time.Time // wall-clock budget of the instance (zero = none)
 	MaxSteps   int
 	MaxDecide  int
 	atomCodes  map[string]uint64
@@ -124,6 +126,10 @@ type Interp struct {
 	known        map[string]*sym.Term // active known-finding predicates (id -> term), per path
 	nondetSeq    map[string]int
 	errSeq       int
+	poolUses     map[*Cell]*poolUse
+	inPoolModel  bool
+	sortSeq      int
+	digests      []digestRec
 	procCodes    map[*Cell]Value
 	curG, goSeq  int // current goroutine (0 = the harness goroutine)
 	libState     map[*Cell]interface{} // engine-side state of modelled library objects (sync.Pool, sync.Map, strings.Builder, ...)
@@ -146,6 +152,10 @@ type Interp struct {
 	lowerUsed    bool
 	lowerApps    []*sym.Term
 	lowerAxioms  []*sym.Term
+	rankUsed     bool
+	rankTie      bool
+	rankFacts    map[string]bool
+	rankApps     []*sym.Term
 	atomVars     map[string]bool
 	lineVars     []*sym.Term
 	Summarize    map[string]bool // pure callees whose paths are merged into one value
@@ -201,7 +211,7 @@ func (in *Interp) ModelValues(m *sym.Model) map[string]string {
 	}
 	for k, v := range m.Vals {
 		name := strings.Trim(k, "|")
-		if strings.HasPrefix(name, "lower:") {
+		if strings.HasPrefix(name, "lower:") || (strings.HasPrefix(name, "rank") && len(name) > 5 && name[5] == ':') {
 			continue
 		}
 		if in.atomVars[name] {
@@ -222,6 +232,14 @@ func (in *Interp) ModelValues(m *sym.Model) map[string]string {
 func (in *Interp) decodeAtom(name string, code uint64, m *sym.Model) string {
 	if s, ok := in.AtomString(code); ok {
 		return s
+	}
+	if w0, ok := m.Vals["|rank0:"+name+"|"]; ok {
+		w := [4]uint64{w0, m.Vals["|rank1:"+name+"|"], m.Vals["|rank2:"+name+"|"], m.Vals["|rank3:"+name+"|"]}
+		if s := decodeRank(w); s != "" {
+			if _, taken := in.atomCodes[s]; !taken {
+				return s
+			}
+		}
 	}
 	lk, has := m.Vals["|lower:"+name+"|"]
 	if !has || lk == code {
@@ -282,6 +300,7 @@ func (in *Interp) SetBank(b *sym.Bank) {
 	in.lowerUsed = false
 	in.lowerApps = nil
 	in.lowerAxioms = nil
+	in.rankUsed, in.rankTie, in.rankFacts, in.rankApps = false, false, nil, nil
 	in.lineVars = nil
 }
 
@@ -475,6 +494,10 @@ func (in *Interp) RunAll(fn *ssa.Function) {
 			in.Inconclusive = append(in.Inconclusive, fmt.Sprintf("path budget %d exhausted", in.MaxPaths))
 			return
 		}
+		if !in.Deadline.IsZero() && time.Now().After(in.Deadline) {
+			in.Inconclusive = append(in.Inconclusive, fmt.Sprintf("time budget of the instance exhausted after %d paths", in.Paths))
+			return
+		}
 		pre := in.work[len(in.work)-1]
 		in.work = in.work[:len(in.work)-1]
 		in.runPath(fn, pre)
@@ -495,6 +518,9 @@ func (in *Interp) runPath(fn *ssa.Function, prefix []int) {
 	in.known = map[string]*sym.Term{}
 	in.nondetSeq = map[string]int{}
 	in.errSeq = 0
+	in.poolUses = nil
+	in.sortSeq = 0
+	in.digests = nil
 	in.locked = 0
 	in.curG, in.goSeq = 0, 0
 	in.libState = nil
